@@ -160,7 +160,7 @@ type SourceIndex struct {
 
 	Architecture []dependency.Arch
 
-	StandardsVersion string
+	StandardsVersion string `control:"Standards-Version"`
 	Format           string
 	Files            []MD5FileHash    `delim:"\n" strip:"\n\r\t "`
 	VcsBrowser       string           `control:"Vcs-Browser"`
